@@ -350,6 +350,42 @@ func vC10Scenario(name string, seed uint64) string {
 			return "stop-hangs/" + strings.Join(vParked(), ",")
 		}
 		return w.aftermath(nil, time.Since(start))
+	case "simultaneous-stops":
+		// several Stop calls released at the same instant, on many fresh servers: none may panic or hang
+		rounds := 300
+		for i := 0; i < rounds; i++ {
+			s := NewServer(WithCreds(vGenKey(r).Priv, nil))
+			var start, wg sync.WaitGroup
+			start.Add(1)
+			crash := make(chan string, 8)
+			for g := 0; g < 4; g++ {
+				wg.Add(1)
+				go func() {
+					defer wg.Done()
+					defer func() {
+						if p := recover(); p != nil {
+							crash <- fmt.Sprintf("panic-in-simultaneous-stop/%v", p)
+						}
+					}()
+					start.Wait()
+					s.Stop()
+				}()
+			}
+			start.Done()
+			done := make(chan struct{})
+			go func() { wg.Wait(); close(done) }()
+			select {
+			case <-done:
+			case <-time.After(5 * time.Second):
+				return "stop-hangs/simultaneous"
+			}
+			select {
+			case c := <-crash:
+				return c
+			default:
+			}
+		}
+		return ""
 	case "concurrent-admin":
 		w := vC10Setup(r)
 		c, err := vRawDial(w.addr, w.keys[0], w.skey.Pub)
@@ -400,7 +436,7 @@ func vC10Scenario(name string, seed uint64) string {
 	return "unknown-scenario"
 }
 
-var vC10Names = []string{"open-sessions", "idle-longer-than-write-timeout", "calls-both-directions", "handshakes-in-progress", "concurrent-admin", "write-timed-out-before-stop"}
+var vC10Names = []string{"open-sessions", "idle-longer-than-write-timeout", "calls-both-directions", "handshakes-in-progress", "concurrent-admin", "write-timed-out-before-stop", "simultaneous-stops"}
 
 func TestVerifC10Child(t *testing.T) {
 	spec := vChildSpec()
